@@ -66,7 +66,14 @@ def run(ctx):
         c = sink_edges[0]
         loop = C.enclosing_loop(c)
         ok = isinstance(loop, ast.For) and U(loop.iter) == "self.kernel" and U(C.flow_of(f).subst(c.args[0])) == "%s.line_number" % U(loop.target)
-        ctx.check(ok and len(sink_edges) == 1, "R3", "every kernel line gets an edge to the virtual sink", f.where(c),
+        over_kernel = isinstance(loop, ast.For) and U(C.flow_of(f).subst(loop.iter)) in ("self.kernel", "list(self.kernel)", "tuple(self.kernel)")
+        it_s = C.flow_of(f).subst(loop.iter) if isinstance(loop, ast.For) else None
+        part_of_kernel = it_s is not None and (
+            (isinstance(it_s, ast.Subscript) and U(it_s.value) == "self.kernel" and isinstance(it_s.slice, ast.Slice)) or
+            (isinstance(it_s, (ast.ListComp, ast.GeneratorExp)) and len(it_s.generators) == 1 and U(it_s.generators[0].iter) == "self.kernel"
+             and bool(it_s.generators[0].ifs)) or
+            (C.is_call_to(it_s, "filter") and len(it_s.args) == 2 and U(it_s.args[1]) == "self.kernel"))
+        ctx.judge(ok and len(sink_edges) == 1, over_kernel or part_of_kernel or not isinstance(loop, ast.For), "R3", "every kernel line gets an edge to the virtual sink", f.where(c),
                   "terminal edges are not added for every line of self.kernel", f.qname, "sink edge per line")
         if ok:
             # ... on every iteration: no path through the loop body back to the header that avoids the add_edge
@@ -85,7 +92,9 @@ def run(ctx):
                   f.qname, "sink id")
         wv = [k.value for k in c.keywords if k.arg == key]
         good = False
-        if wv and isinstance(loop, ast.For):
+        if wv and isinstance(loop, ast.For) and not over_kernel and not part_of_kernel:
+            good = "unknown"        # the weights were prepared elsewhere (a list of (line, weight) pairs): not followed
+        elif wv and isinstance(loop, ast.For):
             iv = U(loop.target)
             flow = C.flow_of(f)
             defs = C.assigns_to(loop, U(wv[0])) if isinstance(wv[0], ast.Name) else []
@@ -114,6 +123,8 @@ def run(ctx):
                 good = None
         if good is True:
             ctx.node_ok("R3", f, c, "terminal weight = latency (latency_wo_load if the load stage is a separate node)")
+        elif good == "unknown":
+            ctx.unknown("R3", U(c)[:100], f.where(c), "the terminal weights are taken from a prepared collection; how they were computed is not followed")
         elif good is False:
             ctx.node_bad("R3", f, c, "terminal edge weight is not `latency` (or `latency_wo_load` exactly when the node "
                          "line+0.1 exists): the critical path can be shorter than a single instruction's latency or count a "
@@ -131,69 +142,78 @@ def run(ctx):
                   "`%s` accumulates into state that lives on the instruction forms, and %s never resets it: every further call "
                   "(the report calls it more than once per analysis) adds the path's weights again, so the per-line CP values no "
                   "longer add up to the reported total" % (U(accs[0]), f.qname), f.qname, "reset")
-    def is_pair_iter(it):
-        def res(e):
-            """a local with one definition that is a slice of the path stands for that slice"""
-            if isinstance(e, ast.Name) and e.id != path:
-                ds = [a for a in C.assigns_to(f.node, e.id) if isinstance(a, ast.Assign)]
-                if len(ds) == 1 and U(ds[0].value) in (path + "[:-1]", path + "[1:]"):
-                    return U(ds[0].value)
-            return U(e)
-        if C.is_call_to(it, "pairwise") and it.args and res(it.args[0]) == path:
-            return True
-        b = pm.match("zip(M_a, M_b)", it)
-        return b is not None and res(b["M_a"]) in (path, path + "[:-1]") and res(b["M_b"]) == path + "[1:]"
-    pair_loops = [l for l in ast.walk(f.node) if isinstance(l, ast.For) and is_pair_iter(l.iter)]
-    ctx.check(len(pair_loops) == 1, "R3", "per-line values are assigned along consecutive nodes of the whole path", f.where(),
-              "no loop over pairwise(%s): %s" % (path, [U(l.iter) for l in ast.walk(f.node) if isinstance(l, ast.For)]), f.qname, "pairwise loop")
-    # the per-line values live on the instruction forms, which other analyses of the same parsed code share and rewrite
-    # (a second graph over a sub-range, a renewed add_semantics): every call that returns a path must re-establish them
-    if pair_loops:
-        for r in [x for x in ast.walk(f.node) if isinstance(x, ast.Return) and x.value is not None]:
-            ctx.check(cfg.dominates(pair_loops[0], r), "R3", "a returned path comes with freshly assigned latency_cp values", f.where(r),
-                      "`%s` leaves %s without passing the loop that assigns latency_cp along the path (a remembered result is handed "
-                      "out): latency_cp is state of the instruction forms, which a second graph over the same lines (--lines, "
-                      "flag dependencies) or a renewed add_semantics overwrites in between; the marked lines' values then no longer "
-                      "add up to this graph's longest chain" % (U(r)[:70], f.qname), f.qname, "return without assignment of latency_cp")
-    for n in stores:
-        val = U(n.value)
-        tgt = n.targets[0] if isinstance(n, ast.Assign) else n.target
-        if isinstance(n, ast.Assign) and C.const_num(n.value) == 0:
-            # reset: must cover the nodes that are written later and precede the accumulation
-            rl = C.enclosing_loop(n)
-            ok = bool(pair_loops) and not C.in_subtree(n, pair_loops[0]) and isinstance(rl, ast.For) and U(rl.iter) in (
-                path, path + "[:-1]") and cfg.dominates(rl, pair_loops[0]) and U(n.targets[0].value) in (
-                "self._get_node_by_lineno(int(%s))" % U(rl.target),)
-            ctx.check(ok, "R3", "latency_cp is reset before it is accumulated", f.where(n), "reset does not precede the accumulation",
-                      f.qname, "reset")
-            continue
-        in_pair = bool(pair_loops) and C.in_subtree(n, pair_loops[0])
-        if not in_pair and not (".latency" in val and "edges" not in val):
-            ctx.unknown("R3", U(n), f.where(n), "latency_cp is assigned outside the loop over consecutive path nodes from a value the rule cannot trace")
-            continue
-        if not in_pair:
-            ctx.node_bad("R3", f, n, "`%s` reports a term that is not an edge weight of the searched path: the printed total "
-                         "and the maximised quantity differ" % U(n))
-            continue
-        s, d = [U(e) for e in pair_loops[0].target.elts]
-        ok_val = val in ("%s.edges[%s, %s]['%s']" % (g, s, d, key), "%s.edges[(%s, %s)]['%s']" % (g, s, d, key))
-        if not ok_val:
-            ctx.node_bad("R3", f, n, "the per-line value is `%s`, not the `%s` attribute of the edge (%s, %s) of the graph "
-                         "that was searched (%s)" % (val, key, s, d, g))
-            continue
-        # (b) accumulate: the node is looked up through int(s), which is not injective (line, line + 0.1)
-        recv = U(tgt.value)
-        rdef = [a for a in C.assigns_to(pair_loops[0], recv)]
-        via_int = (bool(rdef) and U(rdef[0].value) == "self._get_node_by_lineno(int(%s))" % s) or \
-            recv == "self._get_node_by_lineno(int(%s))" % s
-        if isinstance(n, ast.AugAssign) and isinstance(n.op, ast.Add) and via_int:
-            ctx.node_ok("R3", f, n, "latency_cp of line int(%s) += weight of edge (%s, %s)" % (s, s, d))
-        elif isinstance(n, ast.Assign):
-            ctx.node_bad("R3", f, n, "the store `%s` overwrites: a load node (line + 0.1) and its instruction map to the same "
-                         "line through int(), so the load stage's latency is lost from the report" % U(n))
-        else:
-            ctx.node_bad("R3", f, n, "per-line value is not accumulated on the line int(%s)" % s)
-    # ------------------------------------------------------------------ R2 node ids
+    def _r3_values():
+        def is_pair_iter(it):
+            def res(e):
+                """a local with one definition that is a slice of the path stands for that slice"""
+                if isinstance(e, ast.Name) and e.id != path:
+                    ds = [a for a in C.assigns_to(f.node, e.id) if isinstance(a, ast.Assign)]
+                    if len(ds) == 1 and U(ds[0].value) in (path + "[:-1]", path + "[1:]"):
+                        return U(ds[0].value)
+                return U(e)
+            if C.is_call_to(it, "pairwise") and it.args and res(it.args[0]) == path:
+                return True
+            b = pm.match("zip(M_a, M_b)", it)
+            return b is not None and res(b["M_a"]) in (path, path + "[:-1]") and res(b["M_b"]) == path + "[1:]"
+        pair_loops = [l for l in ast.walk(f.node) if isinstance(l, ast.For) and is_pair_iter(l.iter)]
+        other_pairs = [l for l in ast.walk(f.node) if isinstance(l, ast.For) and (C.is_call_to(l.iter, "pairwise") or pm.match("zip(M_a, M_b)", l.iter) is not None)]
+        if not pair_loops and other_pairs:
+            # consecutive nodes of *something* are visited, but the rule cannot tie that list to the search result (it travelled
+            # through an attribute / a tuple): nothing below can be judged
+            ctx.unknown("R3", "pairwise loop", f.where(other_pairs[0]), "the loop over consecutive nodes iterates `%s`, which the rule cannot tie to "
+                        "the result of the longest-path search `%s`" % (U(other_pairs[0].iter)[:60], path))
+            return
+        ctx.check(len(pair_loops) == 1, "R3", "per-line values are assigned along consecutive nodes of the whole path", f.where(),
+                  "no loop over pairwise(%s): %s" % (path, [U(l.iter) for l in ast.walk(f.node) if isinstance(l, ast.For)]), f.qname, "pairwise loop")
+        # the per-line values live on the instruction forms, which other analyses of the same parsed code share and rewrite
+        # (a second graph over a sub-range, a renewed add_semantics): every call that returns a path must re-establish them
+        if pair_loops:
+            for r in [x for x in ast.walk(f.node) if isinstance(x, ast.Return) and x.value is not None]:
+                ctx.check(cfg.dominates(pair_loops[0], r), "R3", "a returned path comes with freshly assigned latency_cp values", f.where(r),
+                          "`%s` leaves %s without passing the loop that assigns latency_cp along the path (a remembered result is handed "
+                          "out): latency_cp is state of the instruction forms, which a second graph over the same lines (--lines, "
+                          "flag dependencies) or a renewed add_semantics overwrites in between; the marked lines' values then no longer "
+                          "add up to this graph's longest chain" % (U(r)[:70], f.qname), f.qname, "return without assignment of latency_cp")
+        for n in stores:
+            val = U(n.value)
+            tgt = n.targets[0] if isinstance(n, ast.Assign) else n.target
+            if isinstance(n, ast.Assign) and C.const_num(n.value) == 0:
+                # reset: must cover the nodes that are written later and precede the accumulation
+                rl = C.enclosing_loop(n)
+                ok = bool(pair_loops) and not C.in_subtree(n, pair_loops[0]) and isinstance(rl, ast.For) and U(rl.iter) in (
+                    path, path + "[:-1]") and cfg.dominates(rl, pair_loops[0]) and U(n.targets[0].value) in (
+                    "self._get_node_by_lineno(int(%s))" % U(rl.target),)
+                ctx.check(ok, "R3", "latency_cp is reset before it is accumulated", f.where(n), "reset does not precede the accumulation",
+                          f.qname, "reset")
+                continue
+            in_pair = bool(pair_loops) and C.in_subtree(n, pair_loops[0])
+            if not in_pair and not (".latency" in val and "edges" not in val):
+                ctx.unknown("R3", U(n), f.where(n), "latency_cp is assigned outside the loop over consecutive path nodes from a value the rule cannot trace")
+                continue
+            if not in_pair:
+                ctx.node_bad("R3", f, n, "`%s` reports a term that is not an edge weight of the searched path: the printed total "
+                             "and the maximised quantity differ" % U(n))
+                continue
+            s, d = [U(e) for e in pair_loops[0].target.elts]
+            ok_val = val in ("%s.edges[%s, %s]['%s']" % (g, s, d, key), "%s.edges[(%s, %s)]['%s']" % (g, s, d, key))
+            if not ok_val:
+                ctx.node_bad("R3", f, n, "the per-line value is `%s`, not the `%s` attribute of the edge (%s, %s) of the graph "
+                             "that was searched (%s)" % (val, key, s, d, g))
+                continue
+            # (b) accumulate: the node is looked up through int(s), which is not injective (line, line + 0.1)
+            recv = U(tgt.value)
+            rdef = [a for a in C.assigns_to(pair_loops[0], recv)]
+            via_int = (bool(rdef) and U(rdef[0].value) == "self._get_node_by_lineno(int(%s))" % s) or \
+                recv == "self._get_node_by_lineno(int(%s))" % s
+            if isinstance(n, ast.AugAssign) and isinstance(n.op, ast.Add) and via_int:
+                ctx.node_ok("R3", f, n, "latency_cp of line int(%s) += weight of edge (%s, %s)" % (s, s, d))
+            elif isinstance(n, ast.Assign):
+                ctx.node_bad("R3", f, n, "the store `%s` overwrites: a load node (line + 0.1) and its instruction map to the same "
+                             "line through int(), so the load stage's latency is lost from the report" % U(n))
+            else:
+                ctx.node_bad("R3", f, n, "per-line value is not accumulated on the line int(%s)" % s)
+        # ------------------------------------------------------------------ R2 node ids
+    _r3_values()
     ctx.rule("R2", "load-node ids line + 0.1 and int() normalisation of every node-id -> line mapping")
     frac = [n for n in ast.walk(cd.node) if isinstance(n, ast.BinOp) and isinstance(n.op, ast.Add) and C.const_num(n.right) is not None
             and isinstance(C.const_num(n.right), float)]
@@ -237,7 +257,10 @@ def run(ctx):
         "[M_x for M_x in self.kernel if M_x.line_number in %s[:-1]]", "[M_x for M_x in self.kernel if M_x.line_number in %s]",
         "[M_x for M_x in self.kernel if M_x.line_number in set(%s[:-1])]", "[M_x for M_x in self.kernel if M_x.line_number in set(%s)]",
         "[M_x for M_x in self.kernel if M_x.line_number in frozenset(%s[:-1])]"))
-    ctx.check(ok, "R5", "return [line for line in kernel if line.line_number in path]", f.where(rets[0]) if rets else f.where(),
+    # (a list that is filtered by membership in another name than the search result: cannot be tied to it here)
+    rec5 = ok or rv is None or any(pm.match(pat % "M_p", rv) is None for pat in (
+        "[M_x for M_x in self.kernel if M_x.line_number in %s[:-1]]", "[M_x for M_x in self.kernel if M_x.line_number in %s]"))
+    ctx.judge(ok, rec5, "R5", "return [line for line in kernel if line.line_number in path]", f.where(rets[0]) if rets else f.where(),
               "get_critical_path returns %s" % ([U(r.value)[:100] for r in rets]), f.qname, "returned lines")
     # ------------------------------------------------------------------ R6 edge weights (the chain's "producer-to-consumer latency")
     from . import c03
